@@ -517,7 +517,7 @@ def run(ctx):
     # latent undefined behaviour - a broken __restrict promise, a read of a dead temporary - needs in order to show) and g++ -O2
     hl = ['prod', 'x86base', 'p64', 'p32', 'p64-O0', 'gcc-p64'] + ([] if ctx.quick else ['p32-O0', 'gcc-p64-O0'])
     hexes = session.build_exes({c: (c if c != 'x86base' else 'prod', 'opdrv.cpp', ['--x86base'] if c == 'x86base' else []) for c in hl})
-    hl2 = ['prod', 'x86base', 'p64', 'p32']
+    hl2 = ['prod', 'x86base', 'p64', 'p32', 'p64-O0', 'gcc-p64']
     layers = [(m, 'opdrv.cpp', hl, hexes, [0, 5, 10]) for m in ('c04', 'c05', 'c06')] + [(m, 'opdrv.cpp', hl, hexes, [0, 9]) for m in ('c01', 'c07', 'c08', 'c09', 'c10')]
     wexes = session.build_exes({c: (c if c != 'x86base' else 'prod', 'wkd_drv.cpp', ['--x86base'] if c == 'x86base' else []) for c in hl2})
     sexes = session.build_exes({c: (c if c != 'x86base' else 'prod', 'scheme_drv.cpp', ['--x86base'] if c == 'x86base' else []) for c in hl2})
